@@ -58,13 +58,23 @@ Inductive sop :=
   | SRename (t : nat) (old new : string) (depth : nat) (ident : bool)
   | SDelCol (t : nat) (name : string) (depth : nat)
   | SCopyCol (t : nat) (name : string) (old_depth : nat) (t2 : nat) (name2 : string) (depth : nat)
+  | SConcatRow (t t2 : nat) (i : Z)                 (* P[t] << P[t2][i] (i normalised): the one-row table first, then << *)
+  | SConcatDict (t : nat) (n : nat) (cols : list (string * list pyv))
+                                                   (* P[t] << {name: values, ...}: the table _fromdict builds (n = longest value), then << *)
   | SRefused (t : nat) (e : exn)       (* a malformed series assignment: raises (class as observed), changes nothing *)
   | SOut.                                                                    (* a step the encoding does not cover *)
 
 Definition upto (d : nat) : list nat := seq 0 d.
 
-Definition expand (so : sop) : list op :=
+(* npool: the number of pool members before the operation (the index the next new table gets) *)
+Definition expand (npool : nat) (so : sop) : list op :=
   match so with
+  | SConcatRow t t2 i => [OSlice t2 (Some i) (Some (i + 1)%Z); OConcat t npool]
+  | SConcatDict t n cols =>
+      ONew n
+      :: flat_map (fun '(name, vs) => [OSetColKind npool name KMixed;
+                                       OSetCell npool name (ASlice None (Some (Z.of_nat (List.length vs)))) (RSeq vs)]) cols
+      ++ [OConcat t npool]
   | SPlain o => [o]
   | SNew t name d d0 =>
       map (fun j => OSetColKind t (sname name j) KFloat) (upto d)
@@ -101,7 +111,7 @@ Fixpoint run_ops (w : world) (ops : list op) : world * outcome :=
 Definition sstep (w : world) (so : sop) : world * outcome :=
   match so with
   | SRefused _ e => (w, Err e)
-  | _ => run_ops w (expand so)
+  | _ => run_ops w (expand (List.length (pool w)) so)
   end.
 Definition srun (sops : list sop) (w : world) : world := fold_left (fun w so => fst (sstep w so)) sops w.
 
@@ -116,5 +126,5 @@ Definition starget (so : sop) : option nat :=
       end
   | SNew t _ _ _ | SSet t _ _ _ _ | SSetSample t _ _ _ _ | SSetDepth t _ _ _ | SRename t _ _ _ _
   | SDelCol t _ _ | SCopyCol t _ _ _ _ _ | SRefused t _ => Some t
-  | SOut => None
+  | SConcatRow _ _ _ | SConcatDict _ _ _ | SOut => None
   end.
